@@ -254,6 +254,18 @@ impl Interface for TIface {
 }
 
 /// Implementation of the generated server trait.
+/// Generated from the hostile-format definition of build.rs (C03: description verbatim).
+pub mod fmt {
+    include!(concat!(env!("OUT_DIR"), "/org.verif.fmt.rs"));
+}
+pub const FMT_TEXT: &str = include_str!(concat!(env!("OUT_DIR"), "/org.verif.fmt.varlink"));
+pub struct FmtImpl;
+impl fmt::VarlinkInterface for FmtImpl {
+    fn get(&self, call: &mut dyn fmt::Call_Get, t: fmt::T) -> varlink::Result<()> {
+        call.reply(t)
+    }
+}
+
 pub struct GenImpl;
 impl gen::VarlinkInterface for GenImpl {
     fn add(&self, call: &mut dyn gen::Call_Add, a: i64, b: i64, token: String) -> varlink::Result<()> {
